@@ -15,9 +15,12 @@ import (
 	"net/http"
 	"regexp"
 	"strings"
+	"sync"
 	"testing"
 
 	"github.com/vicanso/pike/cache"
+	"github.com/vicanso/pike/compress"
+	"github.com/vicanso/pike/config"
 
 	"verif/harness/internal/vstat"
 )
@@ -60,8 +63,16 @@ func tokens(ae string) map[string]bool {
 	return m
 }
 
+var c13Once sync.Once
+
 func execC13(cell c13Cell) *vstat.Outcome {
 	out := &vstat.Outcome{}
+	// a compress profile with the fastest levels, used by half of the responses that are
+	// compressed per request: what is stored must be best-compression output whatever was
+	// compressed before, at whatever level
+	c13Once.Do(func() {
+		compress.Reset([]config.CompressConfig{{Name: "c13fast", Levels: map[string]uint{"gzip": 1, "br": 1}}})
+	})
 	body := c13Body(cell.Size, cell.BodySeed)
 	gz := refGzip(body, 6)
 	br := refBrotli(body, 5)
@@ -77,6 +88,9 @@ func execC13(cell c13Cell) *vstat.Outcome {
 		resp.CompressContentTypeFilter = filter
 	} else {
 		filter = regexp.MustCompile(`text|javascript|json|wasm|xml|font`) // the documented default
+	}
+	if !cell.Cacheable && cell.BodySeed%2 != 0 {
+		resp.CompressSrv = "c13fast"
 	}
 	if cell.Cacheable {
 		// as the proxy creates it: one variant, then the entry becomes cacheable
